@@ -96,6 +96,25 @@ theorem bf_ge_min_on_decrease (p : Params) (height maxGas : Int) (g : Nat) (h : 
     p.minGasPrice / dec18 ≤ (calcBaseFee p height maxGas g).val := by
   rw [bf_down p height maxGas g h hm hg]; simp only [Result.val]; omega
 
+/-- the strict reading of "never below the configured minimum gas price" fails by less than one unit when the minimum has a
+    fractional part: the floor applied on a decrease is ⌊minGasPrice⌋ — parent base fee 11, minimum 10.9, an empty
+    parent block: the base fee becomes 10 (recorded finding: transactions priced 10 pass the base-fee check and are then
+    refused by the minimum-gas-price decorator, so nothing is under-charged) -/
+theorem bf_min_fraction_truncated_counterexample :
+    calcBaseFee { noBaseFee := false, enableHeight := 0, baseFee := 11, elasticity := 2, denominator := 8,
+                  minGasPrice := 10900000000000000000, minGasMultiplier := 500000000000000000 } 5 100 0 = .fee 10 ∧
+    10 * dec18 < 10900000000000000000 := by decide
+
+/-- with an integral minimum the strict reading holds -/
+theorem bf_ge_min_strict_of_integral (p : Params) (height maxGas : Int) (g : Nat) (h : Active p height maxGas)
+    (hm : maxGas < 2 ^ 63) (hlt : g < target p maxGas) (m : Nat) (hint : p.minGasPrice = m * dec18) :
+    p.minGasPrice ≤ (calcBaseFee p height maxGas g).val * dec18 := by
+  have h1 := bf_ge_min_on_decrease p height maxGas g h hm hlt
+  have hd : (0:Nat) < dec18 := by decide
+  rw [hint] at h1 ⊢
+  rw [Nat.mul_div_cancel _ hd] at h1
+  exact Nat.mul_le_mul_right _ h1
+
 /-- strictly raised above the target -/
 theorem bf_gt_parent_of_gt (p : Params) (height maxGas : Int) (g : Nat) (h : Active p height maxGas)
     (hm : maxGas < 2 ^ 63) (hg : target p maxGas < g) :
